@@ -180,6 +180,12 @@ def run(pid, tier, seed):
             c8 = {"masters": 3, "mode": "step"}
             groups.append((c8, gen_core.gen_seg_wrap(seed, 25 if q else 400, common.slot_tags(c8)), "segwrap", None))
             grp["segwrap"] = 6
+        if pid in ("C08", "C12"):
+            # a connection whose request arrived in two reads and that then leaves the beginning of another request pending
+            # (a truncated message) while a second connection's request arrives in two reads
+            c8 = {"masters": 3, "mode": "step"}
+            groups.append((c8, gen_core.gen_seg_pool(seed, 30 if q else 500, common.slot_tags(c8)), "segpool", None))
+            grp["segpool"] = 2
         if pid in ("C08", "C06"):
             # successive cut requests of growing length on one connection (the first piece of a request as long as the whole
             # previous one): nothing of an earlier request's assembly shows up in a later one
@@ -313,6 +319,9 @@ def run(pid, tier, seed):
                     offenders = {x["c"] for x in _stims(sc) if x["op"] == "send" and any(r["k"] == "bad" for r in x["reqs"])} if sc else set()
                     if offenders and v.get("c") and v["c"] not in offenders:
                         v = dict(v, prop="C12", code="other-connection-disturbed:" + v["code"])
+                if tag == "segpool" and pid == "C12" and v["prop"] in ("C08", "C01", "C02", "C03", "C06", "C07"):
+                    # nobody sent anything invalid here: whatever goes wrong was caused by the other connection's pending prefix
+                    v = dict(v, prop="C12", code="disturbed-by-another-connection's-truncated-message:" + v["code"])
                 if tag.startswith("interleave") and (v["code"] in ("reply-bytes-altered", "stray-bytes", "wrong-position", "foreign-data")):
                     v = dict(v, prop="C03", code="slow-reader:" + v["code"])
                 if tag == "cbacklog" and v["code"] in ("replies-missing", "replies-out-of-step"):
